@@ -50,3 +50,22 @@ Definition rootY : option root := Some {| r_events := None |}.
 Definition frame2 (rs : list (gostr * option root)) (pss : list (Z * option (list (option peer)))) : frame :=
   {| f_round := 2; f_peers := Some [Some {| p_addr := name "a"; p_pub := name "0X04"; p_moniker := name "<m>" |}];
      f_roots := Some rs; f_events := Some []; f_psets := Some pss; f_ts := 9 |}.
+
+(* ---- a frame received over TCP by a node D that only has the repertoire (Hashgraph.Reset) ---- *)
+Definition ds0 : wstore := {| ws_rep := ws_rep st0; ws_pe := []; ws_ev := [] |}.
+Definition evB0 : event :=
+  {| e_body := {| b_txs := None; b_itxs := None; b_parents := Some [[]; []]; b_creator := Some kB; b_index := 0;
+                  b_bsigs := None; b_ts := 3; b_cid := 22; b_opcid := 0; b_spi := -1; b_opi := -1 |};
+     e_sig := name "p|q"; e_topo := 1; e_round := Some 0; e_lamport := Some 0; e_rr := None;
+     e_last := None; e_first := None; e_hexc := None |}.
+Definition hA1 : gostr := name "0XA1".
+Definition fe0 : fevent := {| fe_core := None; fe_round := 1; fe_lamport := 2; fe_witness := true |}.
+(* what arrives: the public part only (C15_json_roundtrip_frame_events) *)
+Definition arrived (e : event) : event := mk_event (with_wire (e_body e) 0 0 0 0) (e_sig e).
+(* frame order: B's first event, then A's second event whose other-parent it is *)
+Definition frame_list2 : list (gostr * (fevent * event)) :=
+  [(hB0, (fe0, arrived evB0)); (hA1, (fe0, arrived ev1w))].
+(* the same event alone: its other-parent is below the frame (the residual) *)
+Definition frame_list1 : list (gostr * (fevent * event)) := [(hA1, (fe0, arrived ev1w))].
+Definition third (r : option (wstore * Z * event)) (d : event) : event :=
+  match r with Some (_, _, e) => e | None => d end.
